@@ -33,13 +33,14 @@ C08 == INSTANCE Mon_C08 WITH MCfg <- MCfgV
 C09 == INSTANCE Mon_C09 WITH MCfg <- MCfgV
 C17 == INSTANCE Mon_C17 WITH MCfg <- MCfgV
 C10 == INSTANCE Mon_C10 WITH MCfg <- MCfgV
+C19 == INSTANCE Mon_C19 WITH MCfg <- MCfgV
 
 MonInit == [c06 |-> C06!Init, c07 |-> C07!Init, c11 |-> C11!Init, c12 |-> C12!Init, c13 |-> C13!Init,
-            c08 |-> C08!Init, c09 |-> C09!Init, c17 |-> C17!Init, c10 |-> C10!Init]
+            c08 |-> C08!Init, c09 |-> C09!Init, c17 |-> C17!Init, c10 |-> C10!Init, c19 |-> C19!Init]
 MonStep(Mo, st) == [c06 |-> C06!Step(Mo.c06, st), c07 |-> C07!Step(Mo.c07, st), c11 |-> C11!Step(Mo.c11, st),
                     c12 |-> C12!Step(Mo.c12, st), c13 |-> C13!Step(Mo.c13, st),
                     c08 |-> C08!Step(Mo.c08, st), c09 |-> C09!Step(Mo.c09, st), c17 |-> C17!Step(Mo.c17, st),
-                    c10 |-> C10!Step(Mo.c10, st)]
+                    c10 |-> C10!Step(Mo.c10, st), c19 |-> C19!Step(Mo.c19, st)]
 
 \* ---------------------------------------------------------------- message alphabet
 Hosts == Peers \cup {"x.r9"}
@@ -148,6 +149,7 @@ Inv08 == S.overflow \/ Sigs(M.c08.viol) \subseteq Known
 Inv09 == S.overflow \/ Sigs(M.c09.viol) \subseteq Known
 Inv17 == S.overflow \/ Sigs(M.c17.viol) \subseteq Known
 Inv10 == S.overflow \/ Sigs(M.c10.viol) \subseteq Known
+Inv19 == S.overflow \/ Sigs(M.c19.viol) \subseteq Known
 \* the atomic step always reaches quiescence within the bound of Quiesce
 Quiescent == ~AnyEnabled(S)
 NoOverflow == ~S.overflow
